@@ -75,6 +75,12 @@ fn resolve_and_link(
         ) => {
             if let InformationObjectFields::CustomSyntax(c) = &fields {
                 if let Some(id) = c.first().and_then(SyntaxApplication::as_str_or_none) {
+                    if object_reference_cycle(id, tlds) {
+                        return Err(GrammarError::new(
+                            "Cyclic reference between information objects.",
+                            GrammarErrorType::LinkerError,
+                        ));
+                    }
                     if let Some(ToplevelDefinition::Object(tld)) = tlds.get(id) {
                         let mut tld_clone = tld.clone().resolve_class_reference(tlds);
                         tld_clone.collect_supertypes(tlds)?;
@@ -86,6 +92,34 @@ fn resolve_and_link(
         }
         Err(e) => Err(e),
     }
+}
+
+/// An object defined as `{ other-object }` is replaced by the referenced object, which is
+/// resolved the same way: the chain of such references must not lead back into itself.
+fn object_reference_cycle(start: &str, tlds: &BTreeMap<String, ToplevelDefinition>) -> bool {
+    let mut visited = vec![start];
+    let mut current = start;
+    while let Some(ToplevelDefinition::Object(ToplevelInformationDefinition {
+        value: ASN1Information::Object(object),
+        ..
+    })) = tlds.get(current)
+    {
+        let InformationObjectFields::CustomSyntax(syntax) = &object.fields else {
+            break;
+        };
+        let Some(next) = syntax.first().and_then(SyntaxApplication::as_str_or_none) else {
+            break;
+        };
+        if visited.contains(&next) {
+            return true;
+        }
+        if !matches!(tlds.get(next), Some(ToplevelDefinition::Object(_))) {
+            break;
+        }
+        visited.push(next);
+        current = next;
+    }
+    false
 }
 
 fn link_object_fields(
@@ -273,10 +307,48 @@ impl ObjectSet {
             .any(|val| val.references_object_set_by_name())
     }
 
+    /// References between object sets are flattened by repeated substitution, which only ends
+    /// if the references do not lead back to a set that is already being expanded.
+    fn leads_into_reference_cycle<'a>(
+        id: &'a str,
+        tlds: &'a BTreeMap<String, ToplevelDefinition>,
+        path: &mut Vec<&'a str>,
+    ) -> bool {
+        if path.contains(&id) {
+            return true;
+        }
+        if let Some(ToplevelDefinition::Object(ToplevelInformationDefinition {
+            value: ASN1Information::ObjectSet(set),
+            ..
+        })) = tlds.get(id)
+        {
+            path.push(id);
+            for value in &set.values {
+                if let ObjectSetValue::Reference(next) = value {
+                    if Self::leads_into_reference_cycle(next, tlds, path) {
+                        return true;
+                    }
+                }
+            }
+            path.pop();
+        }
+        false
+    }
+
     pub fn resolve_object_set_references(
         &mut self,
         tlds: &BTreeMap<String, ToplevelDefinition>,
     ) -> Result<(), GrammarError> {
+        for value in &self.values {
+            if let ObjectSetValue::Reference(id) = value {
+                if Self::leads_into_reference_cycle(id, tlds, &mut Vec::new()) {
+                    return Err(GrammarError::new(
+                        "Cyclic reference between object sets.",
+                        GrammarErrorType::LinkerError,
+                    ));
+                }
+            }
+        }
         let mut flattened_members = Vec::new();
         let mut needs_recursing = false;
         'resolving_references: for mut value in std::mem::take(&mut self.values) {
